@@ -39,7 +39,7 @@ CHECKS['C01'] = dict(
          '(incl. ConditionalReturnRewriter) are modelled as executable Gallina (the actual guard-placement state machines) and proved '
          'semantics-preserving for all programs of a lowering language with opaque user atoms -- if / while / for / break / continue / '
          'return / with / try-else-finally under an exception-free semantics -- all stores, all decision sequences '
-         '(break_lowering_correct, continue_lowering_correct, return_lowering_correct: mutual induction over a relational big-step '
+         '(break_lowering_correct, continue_lowering_correct, return_lowering_correct and their composition lowering_correct: mutual induction over a relational big-step '
          'semantics, linked to the fuelled interpreter); the models are tied to break_statements.py / continue_statements.py / '
          'return_statements.py on every run by structural comparison of their outputs on the real passes\' inputs (~280 generated '
          'programs). Proving the try/else case exposed a defect in the first repair of /repo, since corrected. '
